@@ -19,13 +19,17 @@ RULE = ('Generated projects of 2-4 apps (2-5 models) with relations from the to-
         'names that are prefixes of one another (shop, shop_item, shop_item_x and M2M tables '
         'named after them) and rows in every table; action drawn from {app removed from '
         'INSTALLED_APPS and purged, removed without purge, evolution with DeleteApplication, '
-        'evolution with DeleteModel}; only removals that leave a loadable project. Oracle: the '
+        'evolution with DeleteModel}; only removals that leave a loadable project; stratum '
+        '"two_stale": a second app pl loses all models through a DeleteApplication evolution '
+        '(V1), then pl and the victim both leave INSTALLED_APPS (V2) and only the victim is '
+        'purged with Evolver.queue_purge_app - pl\'s stored entry must not change. Oracle: the '
         'set of dropped tables equals the tables owned by the named app/model (model tables + '
         'auto-created M2M tables of its fields) computed from the spec; every other table\'s '
         'DDL, indexes and rows are byte-identical; exactly the named entries left the stored '
         'signature and every other app\'s serialisation is identical; without purge nothing is '
         'dropped and the stale app stays in the signature. Non-trivial: a surviving table '
-        'shares a name prefix with, or is related to, a dropped one; distinct = SHA-1 of the case.')
+        'shares a name prefix with, or is related to, a dropped one (two_stale: the second stale '
+        'app is present in the stored signature before the purge); distinct = SHA-1 of the case.')
 ASSUMPTIONS = [
     'purge is driven through the Evolver API (queue_purge_old_apps), as the evolve command does',
     'apps whose models refer to one another inside the removed app trigger F-C01-3 (deletion '
@@ -73,8 +77,11 @@ def cases(draw, stratum):
     except AssertionError:
         pass
     spec = mutgen.ensure_uids(spec)
-    action = draw(st.sampled_from(['purge', 'purge', 'no_purge', 'delete_application',
-                                   'delete_model']))
+    if stratum == 'two_stale':
+        action = 'purge_targeted'
+    else:
+        action = draw(st.sampled_from(['purge', 'purge', 'no_purge', 'delete_application',
+                                       'delete_model']))
     rows, links = draw(EC.rows_for(spec, [], 3))
     model = None
     if action == 'delete_model':
@@ -105,7 +112,9 @@ def cases(draw, stratum):
 def jobs(tier, scale=1.0):
     per = max(1, int((10 if tier == 'quick' else 120) * scale))
     return [{'kind': 'hyp', 'stratum': 'known' if i % 8 == 7 else 'main', 'shard': i,
-             'examples': per} for i in range(16)]
+             'examples': per} for i in range(16)] + \
+           [{'kind': 'hyp', 'stratum': 'two_stale', 'shard': 16 + i, 'examples': max(1, per // 2)}
+            for i in range(2)]
 
 
 def run_job(job, seed, rec, tier):
@@ -149,6 +158,8 @@ def check(case):
         return out
     action = case['action']
     model = case.get('model')
+    if action == 'purge_targeted':
+        return check_targeted(case, spec, victim, out)
     apps = sorted(spec['apps'])
     after_spec = copy.deepcopy(spec)
     evolutions0 = {a: [] for a in apps}
@@ -318,6 +329,103 @@ def check(case):
     out['nontrivial_keys'] = [sha(case)]
     out['sample'] = {'action': action, 'victim': victim, 'model': model,
                      'tables_before': sorted(user_before), 'dropped': sorted(dropped)}
+    return out
+
+
+LEGACY = 'pl'
+
+
+def check_targeted(case, spec, victim, out):
+    """Two stale apps, one of which (pl) lost all its models through an earlier
+    DeleteApplication evolution; only the victim is purged (Evolver.queue_purge_app).
+    pl's stored signature entry - whatever it is after the V1 run - and everything of
+    the other apps must be unchanged; exactly the victim's tables are dropped."""
+    from ..run import sha
+    atoms = out['atoms']
+    action = 'purge_targeted'
+    spec = copy.deepcopy(spec)
+    lm = S.new_model('Legacy')
+    lm['fields'].append(S.new_field('n', 'Integer', null=True))
+    S.add_model(spec, LEGACY, lm)
+    spec = mutgen.ensure_uids(spec)
+    apps = sorted(spec['apps'])
+    spec1 = copy.deepcopy(spec)
+    spec1['apps'][LEGACY]['models'] = {}
+    spec2 = copy.deepcopy(spec1)
+    spec2['apps'].pop(LEGACY)
+    spec2['apps'].pop(victim)
+    try:
+        R.validate(spec)
+        R.validate(spec1)
+        R.validate(spec2)
+    except R.RefInvalid:
+        out['rejected'] = 'dangling_after_removal'
+        return out
+    ev0 = {a: [] for a in apps}
+    ev1 = {a: [] for a in apps}
+    ev1[LEGACY] = [{'label': 'e1', 'mutations': [{'kind': 'DeleteApplication', 'app': LEGACY}]}]
+    apps2 = [a for a in apps if a not in (LEGACY, victim)]
+    ev2 = {a: [] for a in apps2}
+    named = owned_tables(spec, victim)
+    v0 = {'spec': spec, 'apps': apps, 'evolutions': ev0, 'deps': {}}
+    v1 = {'spec': spec1, 'apps': apps, 'evolutions': ev1, 'deps': {}}
+    v2 = {'spec': spec2, 'apps': apps2, 'evolutions': ev2, 'deps': {}}
+    with P.Scratch('c15t_') as sc:
+        dirs = H.write_versions(sc, [v0, v1, v2])
+        db = sc.sub('db.sqlite3')
+        res = P.run_driver(dirs[0], db, {'steps': [
+            c04.upgrade_step('api'),
+            {'op': 'insert_rows', 'spec': spec, 'rows': case['rows'], 'links': case['links']}]})
+        if c04.run_failed('install', res, []):
+            out['rejected'] = 'install_failed'
+            return out
+        mid = P.run_driver(dirs[1], db, {'steps': [c04.upgrade_step('api')]})
+        if mid.get('driver_error') or not mid['steps'][0]['ok']:
+            out['rejected'] = 'delete_application_run_failed'
+            return out
+        before = mid['dumps']['default']
+        up = P.run_driver(dirs[2], db, {'steps': [
+            {'op': 'evolve_api', 'purge_apps': [victim], 'force': True}]})
+        if up.get('driver_error'):
+            atoms.append(['driver_error', up['driver_error'][-300:]])
+            return out
+        s = up['steps'][0]
+        if not s['ok']:
+            atoms.append(['run_failed', action, s['exc']['type'], s['exc'].get('where'),
+                          s['exc']['msg'][:160]])
+            return out
+        after = up['dumps']['default']
+    bt, at = before['tables'], after['tables']
+    skip = ('django_project_version', 'django_evolution', 'django_migrations',
+            'django_content_type', 'sqlite_sequence')
+    user_before = {t for t in bt if t not in skip}
+    dropped = user_before - set(at)
+    if dropped - named:
+        atoms.append(['dropped_unnamed_tables', action, sorted(dropped - named)])
+    if named - dropped:
+        atoms.append(['named_tables_not_dropped', action, sorted(named - dropped)])
+    for t in sorted(user_before - dropped - named):
+        if t in at and (bt[t]['sql'] != at[t]['sql'] or bt[t]['indexes'] != at[t]['indexes']
+                        or bt[t]['rows'] != at[t]['rows']):
+            atoms.append(['other_table_changed', action, t])
+    if set(at) - set(bt):
+        atoms.append(['tables_appeared', action, sorted(set(at) - set(bt))])
+    sb = (before.get('sig_check') or {}).get('stored_apps') or {}
+    sa = (after.get('sig_check') or {}).get('stored_apps') or {}
+    for app in sorted(set(sb) | set(sa)):
+        if app in ('contenttypes', 'django_evolution'):
+            continue
+        if app == victim:
+            if app in sa and sa[app]['models']:
+                atoms.append(['purged_app_still_has_models_in_signature', sa[app]['models']])
+        elif app not in sa or app not in sb or sa[app]['serialized'] != sb[app]['serialized']:
+            atoms.append(['other_app_signature_changed', action, app])
+    if LEGACY in sb:
+        out['labels'].append('second_stale_app_in_signature:models=%d' % len(sb[LEGACY]['models']))
+    out['nontrivial'] = LEGACY in sb
+    out['nontrivial_keys'] = [sha(case)]
+    out['sample'] = {'action': action, 'victim': victim, 'tables_before': sorted(user_before),
+                     'dropped': sorted(dropped), 'legacy_entry_before': sb.get(LEGACY, {}).get('models')}
     return out
 
 
